@@ -208,14 +208,18 @@ static void jstr(char *dst, size_t cap, const char *s)
     dst[o] = 0;
 }
 
+/* source path of a rename (relative to the output root when below it), "" for every other call */
+static const char *ev_src = "";
+
 static void log_event(int cls, const char *call, const char *rel, long k, long res, int err, long len, int fd, const char *inj)
 {
     if (log_fd < 0) return;
-    char p[PATH_MAX * 2], line[PATH_MAX * 2 + 256];
+    char p[PATH_MAX * 2], q[PATH_MAX * 2], line[PATH_MAX * 4 + 256];
     jstr(p, sizeof p, rel);
+    jstr(q, sizeof q, ev_src);
     int n = snprintf(line, sizeof line,
-                     "{\"ev\":\"sys\",\"cls\":\"%s\",\"call\":\"%s\",\"path\":\"%s\",\"k\":%ld,\"res\":%ld,\"errno\":%d,\"len\":%ld,\"fd\":%d,\"inj\":\"%s\"}\n",
-                     cls == C_OUT ? "out" : "in", call, p, k, res, err, len, fd, inj);
+                     "{\"ev\":\"sys\",\"cls\":\"%s\",\"call\":\"%s\",\"path\":\"%s\",\"src\":\"%s\",\"k\":%ld,\"res\":%ld,\"errno\":%d,\"len\":%ld,\"fd\":%d,\"inj\":\"%s\"}\n",
+                     cls == C_OUT ? "out" : "in", call, p, q, k, res, err, len, fd, inj);
     if (n > 0) { ssize_t w = r_write(log_fd, line, (size_t)n); (void)w; }
 }
 
@@ -453,12 +457,31 @@ int rename(const char *from, const char *to)
     const char *inj = begin_call(cls, &k);
     int e = errno_of(inj), res = -1;
     if (!e) { inj = ""; res = r_rename(from, to); e = res < 0 ? errno : 0; }
+    char abs_from[PATH_MAX];
+    const char *rel_from = "";
+    absolutize(AT_FDCWD, from, abs_from);
+    if (classify(abs_from, &rel_from) != C_OUT) rel_from = from;
+    char src_copy[PATH_MAX];
+    snprintf(src_copy, sizeof src_copy, "%s", rel_from);   /* classify() may hand out a static buffer */
+    ev_src = src_copy;
     log_event(cls, "rename", rel, k, res, e, 0, -1, inj);
+    ev_src = "";
     if (e) errno = e;
     return res;
 }
 
-int unlink(const char *path)
+static int do_unlink(const char *path);
+int remove(const char *path)
+{
+    init();
+    struct stat st;
+    if (lstat(path, &st) == 0 && S_ISDIR(st.st_mode)) return rmdir(path);
+    return do_unlink(path);
+}
+
+int unlink(const char *path) { return do_unlink(path); }
+
+static int do_unlink(const char *path)
 {
     init();
     char abs[PATH_MAX];
